@@ -8,6 +8,7 @@
     their Acquires. *)
 From Coq Require Import NArith List String Bool.
 From FF Require Import Sync.Skel Sync.SkelProofs Gen.LockSkel Sync.SkelRun Sync.SkelGenProofs Sync.Serial Sync.SerialProofs.
+From FF Require Import Lib.Word Pmm.Boot Pmm.BootProofs Pmm.Bitmap Pmm.BitmapProofs Pmm.HistoryProofs Pmm.InitProofs Pmm.TopProofs Sync.AllocTasks Sync.AllocTasksProofs.
 Import ListNotations.
 
 (** the checker accepts the skeletons regenerated from the current source, they do touch shared
@@ -62,3 +63,41 @@ Theorem C09_one_inside :
       holds (loc g t) = true -> holds (loc g u) = true -> t = u.
 Proof. exact @one_inside. Qed.
 Print Assumptions C09_one_inside.
+
+(** ---- the theorem instantiated with the allocator's sequential model (C01/C03) ----
+    [AllocTasks.code]: a caller's call = Acquire; the operation on the allocator state; Release; return.
+    [start a0 plan]: allocator [a0], mutex free, task t about to perform the calls [plan t]. *)
+Theorem C09_calls_disciplined : disciplined AllocTasks.code AllocTasks.holds.
+Proof. exact alloc_disciplined. Qed.
+Print Assumptions C09_calls_disciplined.
+
+(** Any number of callers, any plans, any interleaving: whenever nobody is inside the allocator its state
+    is the state after SOME sequential history of planned calls and every result handed to a caller is a
+    result of that history. *)
+Theorem C09_concurrent_alloc_is_serial :
+  forall (a0 : balloc) (plan : nat -> list op) g,
+    star (cstep AllocTasks.code) (start a0 plan) g -> owner g = None ->
+    exists ops, sh g = final a0 ops /\ Forall (planned plan) ops /\
+                Forall (fun e => In (snd e) (results a0 ops)) (hist g).
+Proof. exact concurrent_alloc_is_serial. Qed.
+Print Assumptions C09_concurrent_alloc_is_serial.
+
+(** Composition with C01/C03: after a successful pmm.Init, for any number of concurrent callers, any plans
+    (frees of frames reserved at initialisation excluded, as in C01/C03) and any interleaving, at quiescence
+    there is a sequential history [ops] of the planned calls with: allocator state = state after [ops];
+    along [ops] every frame handed out is usable and held by nobody else - no frame is ever held by two
+    callers, a freed frame becomes allocatable again; free/reserved totals = usable minus held at every
+    step; every result a caller got is a result of [ops]. *)
+Theorem C09_concurrent_frames_exclusive :
+  forall (m : memmap) (kstart kend limit mapfail : N) (a0 : balloc) (b0 : bstate) (obs : init_obs) (plan : nat -> list op) g,
+    WFmap m -> WFkernel m kstart kend -> small_map m ->
+    pmm_init m kstart kend limit mapfail = (InitOk a0 b0, obs) ->
+    (forall t, history_ok m kstart kend (early_frames obs) (plan t)) ->
+    star (cstep AllocTasks.code) (start a0 plan) g -> owner g = None ->
+    exists ops,
+      sh g = final a0 ops /\ Forall (planned plan) ops /\
+      exclusive (usable m kstart kend (early_frames obs)) [] (combine ops (map fst (run a0 ops))) /\
+      stats_ok (total_frames m) (usable_count m kstart kend (early_frames obs)) 0 (run a0 ops) /\
+      Forall (fun e => In (snd e) (map fst (run a0 ops))) (hist g).
+Proof. exact concurrent_frames_exclusive. Qed.
+Print Assumptions C09_concurrent_frames_exclusive.
